@@ -1,0 +1,54 @@
+//go:build verif
+
+package filter
+
+import "github.com/mgtv-tech/redis-GunYu/pkg/digest"
+
+var _ = digest.SpecHashSlot // spec functions used by the contracts below
+
+// Contracts for the verification machinery in /verif (build tag "verif").
+
+// rlWF: representation invariant of RangeList; rlIn: the abstract view "slot s lies in the
+// union of the stored ranges" - deliberately not "sorted disjoint ranges".
+//@ pred rlWF(rl): rl != nil && (forall j int :: 0 <= j && j < len(rl.list) ==> rl.list[j] != nil && rl.minLeft <= rl.list[j].Left && rl.list[j].Left <= rl.list[j].Right && rl.list[j].Right <= rl.maxRight)
+//@ pred rlIn(rl, s): exists j int :: 0 <= j && j < len(rl.list) && rl.list[j].Left <= s && s <= rl.list[j].Right
+
+//@ func RangeList.IsSlotInList
+//@   arith int
+//@   properties C10
+//@   nopanic
+//@   replay filter_RangeList
+//@   opaque SpecHashSlot
+//@   requires wf: rlWF(rl)
+//@   ensures union: result <==> rlIn(rl, digest.SpecHashSlot(key))
+//@   loop 1:
+//@     invariant idx: 0 - 1 <= rangeindex && rangeindex < len(rl.list)
+//@     invariant none_before: forall j int :: 0 <= j && j <= rangeindex ==> !(rl.list[j].Left <= keySlot && keySlot <= rl.list[j].Right)
+
+//@ func sort.Search(n, f) (r)
+//@   trusted library contract: only the range of the result is used (the insertion position is irrelevant for the union view)
+//@   ensures range: 0 <= r && r <= n
+
+//@ func RangeList.InsertSlotInList
+//@   arith int
+//@   properties C10
+//@   nopanic
+//@   requires wf: rlWF(rl)
+//@   ensures len: left <= right ==> len(rl.list) == old(len(rl.list)) + 1
+//@   ensures nn: forall j int :: 0 <= j && j < len(rl.list) ==> rl.list[j] != nil
+//@   ensures mn: forall j int :: 0 <= j && j < len(rl.list) ==> rl.minLeft <= rl.list[j].Left
+//@   ensures mx: forall j int :: 0 <= j && j < len(rl.list) ==> rl.list[j].Right <= rl.maxRight
+//@   ensures ord: forall j int :: 0 <= j && j < len(rl.list) ==> rl.list[j].Left <= rl.list[j].Right
+//@   ensures wf: rlWF(rl)
+//@   ensures added: forall s uint16 :: left <= s && s <= right ==> rlIn(rl, s)
+//@   ensures nothing_invented: forall s uint16 :: rlIn(rl, s) ==> (old(rlIn(rl, s)) || (left <= s && s <= right))
+//@   ensures kept: forall j int :: 0 <= j && j < old(len(rl.list)) ==> (old(rl.list[j]) == rl.list[j] || old(rl.list[j]) == rl.list[j+1])
+//@   ensures ranges_frame: forall j int :: 0 <= j && j < old(len(rl.list)) ==> old(rl.list[j]).Left == old(rl.list[j].Left) && old(rl.list[j]).Right == old(rl.list[j].Right)
+//@   ensures nothing_lost: forall s uint16 :: old(rlIn(rl, s)) ==> rlIn(rl, s)
+
+//@ func NewRangeList
+//@   arith int
+//@   properties C10
+//@   ensures wf: rlWF(result)
+//@   ensures empty: forall s uint16 :: !rlIn(result, s)
+//@   ensures fresh: fresh(result)
